@@ -45,10 +45,10 @@ Record RootArith := {
 
 Inductive lexit := Converged | Stalled | Exhausted.
 
-(* result of one laguer call: final iterate, exit reason, value of `*iterations`, finiteness of the
+(* result of one laguer call: final iterate, exit reason, value of `*iterations`, the iterate on entry, finiteness of the
    iterate on entry and on exit, sanity of the convergence test (the last three are trace only) *)
-Record lres (X : Type) := mkL { lx : X; lwhy : lexit; liters : nat; lfin_in : bool; lfinite : bool; ltest_ok : bool }.
-Arguments mkL {X}. Arguments lx {X}. Arguments lwhy {X}. Arguments liters {X}. Arguments lfin_in {X}. Arguments lfinite {X}.
+Record lres (X : Type) := mkL { lx : X; lwhy : lexit; liters : nat; lx_in : X; lfin_in : bool; lfinite : bool; ltest_ok : bool }.
+Arguments mkL {X}. Arguments lx {X}. Arguments lwhy {X}. Arguments liters {X}. Arguments lx_in {X}. Arguments lfin_in {X}. Arguments lfinite {X}.
 Arguments ltest_ok {X}.    (* false iff the exit is Converged and the bound `err` of the test |p(x)| <= err was not finite *)
 
 Section Model.
@@ -133,6 +133,37 @@ Definition cubic_solve_gen (conj_sign : bool) (a b c d : K) : res (list K) :=
     Ok [r0; r1; r2].
 Definition cubic_solve := cubic_solve_gen true.
 
+(* trace only (known-finding key KF-C10-F): the two cancellations of the unpolished Cardano path.
+   fst: the discriminant `dis` -- evaluated by the expanded formula 18abcd - 4b^3 d + b^2 c^2 - 4ac^3 - 27a^2 d^2 --
+        is the result of catastrophic cancellation, |dis| * 2^16 < the largest of its five terms (near a multiple root);
+   snd: one of the sums  b + u^j k + d0/(u^j k)  cancels, |sum| * 2^16 < its largest term (roots of very different size).
+   Never read by the algorithm. *)
+Definition cubic_diag (a b c d : K) : res (bool * bool) :=
+  let a2 : K := mul a a in let b2 : K := mul b b in let c2 : K := mul c c in let d2 : K := mul d d in
+  let t1 : K := mul (mul (mul (kmulr RA a (rlit 18)) b) c) d in
+  let t2 : K := mul (mul (kmulr RA b (rlit 4)) b2) d in
+  let t3 : K := mul b2 c2 in
+  let t4 : K := mul (mul (kmulr RA a (rlit 4)) c2) c in
+  let t5 : K := mul (kmulr RA a2 (rlit 27)) d2 in
+  let dis : K := sub (sub (add (sub t1 t2) t3) t4) t5 in
+  let big : R := rmax RA (rmax RA (rmax RA (kabs RA t1) (kabs RA t2)) (rmax RA (kabs RA t3) (kabs RA t4))) (kabs RA t5) in
+  let two20 : R := rlit 65536 in
+  let dis_c := ltb (mul (kabs RA dis) two20) big in
+  let '(d0, d1, rad) := cubic_disc a b c d in
+  if eqb d0 zero && eqb d1 zero then Ok (dis_c, false) else
+  let* sq := osqrt RA rad in
+  let* base := kdivr RA (if cubic_minus true d1 sq then sub d1 sq else add d1 sq) (rlit 2) in
+  let* third := div (one : R) (rlit 3) in
+  let* k := opow RA base (mkk RA third zero) in
+  let* ui := div (sqrt (rlit 3)) (rlit 2) in
+  let u : K := mkk RA (neg (rhalf RA)) ui in
+  let cancels (w : K) : res bool :=
+    let* q := div d0 w in
+    let sum : K := add (add b w) q in
+    Ok (ltb (mul (kabs RA sum) two20) (rmax RA (rmax RA (kabs RA b) (kabs RA w)) (kabs RA q))) in
+  let* c0 := cancels k in let* c1 := cancels (mul u k) in let* c2' := cancels (mul (mul u u) k) in
+  Ok (dis_c, c0 || c1 || c2').
+
 (* ---- laguer (mod.rs:306-346) ---- *)
 (* the inner loop `for j in (0..m).rev()`: state (b, err, d, f) *)
 Definition horner_body (a : list K) (x : K) (abx : R) (j : nat) (s : K * R * K * K) : res (K * R * K * K) :=
@@ -177,20 +208,20 @@ Definition laguer_step (a : list K) (m : nat) (iter : nat) (x : K) : res (lexit 
        Ok (inr (sub x (kmulr RA dx fr))).
 
 (* `for iter in 1..MAXIT`: fuel = number of iterations left; falling out of the loop is [Exhausted] *)
-Fixpoint laguer_loop (a : list K) (m : nat) (fin0 : bool) (fuel iter : nat) (x : K) : res (lres K) :=
+Fixpoint laguer_loop (a : list K) (m : nat) (x0 : K) (fin0 : bool) (fuel iter : nat) (x : K) : res (lres K) :=
   match fuel with
-  | 0 => Ok (mkL x Exhausted (iter - 1) fin0 (kfinite RA x) true)
+  | 0 => Ok (mkL x Exhausted (iter - 1) x0 fin0 (kfinite RA x) true)
   | S fuel' =>
       let* o := laguer_step a m iter x in
       match o with
-      | inl (why, tok) => Ok (mkL x why iter fin0 (kfinite RA x) tok)
-      | inr x' => laguer_loop a m fin0 fuel' (S iter) x'
+      | inl (why, tok) => Ok (mkL x why iter x0 fin0 (kfinite RA x) tok)
+      | inr x' => laguer_loop a m x0 fin0 fuel' (S iter) x'
       end
   end.
 
 Definition laguer (a : list K) (x : K) : res (lres K) :=
   let* m := usub (length a) 1 in            (* let m = a.size() - 1; *)
-  laguer_loop a m (kfinite RA x) (MAXIT - 1) 1 x.
+  laguer_loop a m x (kfinite RA x) (MAXIT - 1) 1 x.
 
 (* ---- forward deflation (mod.rs:290-295): returns the new `ad` and the final `b` ---- *)
 Definition deflate_body (x : K) (jj : nat) (s : list K * K) : res (list K * K) :=
@@ -313,10 +344,19 @@ Definition roots_f64 (tbl : list float) (coeffs : list float) (refine : bool) :=
 Definition roots_cplx (tbl : list float) (coeffs : list (cplx AF)) (refine : bool) :=
   poly_solve (FloatRA tbl) coeffs refine.
 
+Definition cubic_diag_cplx (tbl : list float) (coeffs : list (cplx AF)) : res (bool * bool) :=
+  match coeffs with
+  | [d; c; b; a] => cubic_diag (FloatRA tbl) a b c d
+  | _ => Ok (false, false)
+  end.
+Definition cubic_diag_f64 (tbl : list float) (coeffs : list float) : res (bool * bool) :=
+  cubic_diag_cplx tbl (map (fun c => @mkC AF c 0%float) coeffs).
+Definition fl_diag (r : res (bool * bool)) : list Z := fl_res (fun p => fl_bool (fst p) ++ fl_bool (snd p)) r.
+
 (* output streams *)
 Definition exit_code (e : lexit) : nat := match e with Converged => 0 | Stalled => 1 | Exhausted => 2 end.
 Definition fl_lres (l : lres (cplx AF)) : list Z :=
-  fl_nat (exit_code (lwhy l)) ++ fl_nat (liters l) ++ fl_bool (lfin_in l) ++ fl_bool (lfinite l) ++ fl_bool (ltest_ok l).
+  fl_nat (exit_code (lwhy l)) ++ fl_nat (liters l) ++ fl_bool (lfin_in l) ++ fl_bool (lfinite l) ++ fl_bool (ltest_ok l) ++ flat_cf (lx_in l).
 (* tie: the roots only;  trace: the roots, then (exit reason, iterations, finite on entry, finite on exit, test sane) of every laguer call *)
 Definition fl_roots (r : res (list (cplx AF) * list (lres (cplx AF)))) : list Z :=
   fl_res (fun p => fl_list flat_cf (fst p)) r.
